@@ -176,7 +176,8 @@ def describe(gtirb, ir, msg, names):
         if y.referent is not None:
             pl = "b" + desc(y.referent)
         elif y.value is not None:
-            pl = "i%d" % y.value
+            pl = "i%d" % y.value if isinstance(y.value, int) else \
+                "?value:" + type(y.value).__name__     # an ill-typed IR
         else:
             pl = "-"
         return "y%d:%d:%s" % (y.uuid.int, names.get(y.name, -1), pl)
